@@ -6,6 +6,7 @@ import (
 	"fmt"
 	"math"
 	"os"
+	"sort"
 	"strings"
 	"testing"
 
@@ -34,10 +35,18 @@ type vfFlagCase struct {
 	NumRows        int     `json:"numRows"`
 	PayloadSize    int     `json:"payloadSize"`
 	ProbeType      string  `json:"probeType"`
-	Failure        string  `json:"failure,omitempty"`
+	// Before: a flag set used earlier in the same process (checked first): what one target yields must not depend on the
+	// targets that were used before it
+	Before  *vfFlagCase `json:"usedBefore,omitempty"`
+	Failure string      `json:"failure,omitempty"`
 }
 
 func vfCheckFlags(c *vfFlagCase) (failure string, accepted bool) {
+	if c.Before != nil {
+		if f, _ := vfCheckFlags(c.Before); f != "" {
+			return "flag set used before: " + f, false
+		}
+	}
 	q := math.Float64frombits(c.QPSBits)
 	*project, *opsProject, *instance_name, *database_name, *instanceConfig = c.Project, c.OpsProject, c.Instance, c.Database, c.InstanceConfig
 	*qps, *numRows, *payloadSize, *probeType = q, c.NumRows, c.PayloadSize, c.ProbeType
@@ -120,6 +129,36 @@ func vfGenFlags(rt *rapid.T) *vfFlagCase {
 	if rapid.IntRange(0, 2).Draw(rt, "project-colon") == 0 {
 		c.Project = "google.com:" + rapid.StringMatching(`[a-z]{1,6}`).Draw(rt, "pc")
 	}
+	if rapid.IntRange(0, 3).Draw(rt, "twosets") == 0 {
+		// two targets in one process whose names consist of the same pieces cut at different places: the same text when the
+		// four values are written one after the other with the separator between them
+		sep := rapid.SampledFrom([]string{".", ".", "-", "_", "", ":"}).Draw(rt, "sep")
+		n := rapid.IntRange(5, 7).Draw(rt, "pieces")
+		toks := make([]string, n)
+		for i := range toks {
+			toks[i] = rapid.StringMatching(`[a-z][a-z0-9]{0,3}`).Draw(rt, "piece")
+		}
+		split := func(label string) [4]string {
+			// three cut positions 0 < a < b < c < n
+			cuts := rapid.SliceOfNDistinct(rapid.IntRange(1, n-1), 3, 3, rapid.ID[int]).Draw(rt, label)
+			sort.Ints(cuts)
+			return [4]string{strings.Join(toks[:cuts[0]], sep), strings.Join(toks[cuts[0]:cuts[1]], sep), strings.Join(toks[cuts[1]:cuts[2]], sep), strings.Join(toks[cuts[2]:], sep)}
+		}
+		order := rapid.Permutation([]int{0, 1, 2, 3}).Draw(rt, "fieldorder")
+		if rapid.IntRange(0, 2).Draw(rt, "declorder") != 0 {
+			order = []int{0, 1, 2, 3}
+		}
+		set := func(x *vfFlagCase, v [4]string) {
+			dst := []*string{&x.Project, &x.Instance, &x.InstanceConfig, &x.Database}
+			for i, o := range order {
+				*dst[o] = v[i]
+			}
+		}
+		b := *c
+		set(&b, split("cutsBefore"))
+		set(c, split("cuts"))
+		c.Before = &b
+	}
 	return c
 }
 
@@ -134,6 +173,9 @@ func TestC18Flags(t *testing.T) {
 			return f
 		}
 		l := map[string]int{"flags": 1}
+		if c.Before != nil {
+			l["two-flag-sets-from-the-same-pieces-in-one-process"] = 1
+		}
 		if acc {
 			l["flags-accepted"] = 1
 		} else {
